@@ -31,7 +31,7 @@ RESERVED = ["self", "assert", "true", "false", "let", "import", "as", "in", "is"
             "module", "env", "map", "filter", "reduce", "NULL", "out", "constraint", "convert", "TRACE",
             "include", "int", "float", "str", "bool", "mod", "item"]
 
-BAREWORD_RE = re.compile(r"^[A-Za-z_][A-Za-z0-9_-]*$")
+BAREWORD_RE = re.compile(r"^[A-Za-z][A-Za-z0-9_-]*$")
 
 _TABLE = None
 
